@@ -593,7 +593,13 @@ def _cls_names(meta, op):
 def _cls_n(n): return "none" if n is None else "min" if n == "min" else "int"
 
 # ------------------------------------------------------------------------------------------ the checker
-def check_case(spec, ctx=None, flag=True):
+def check_case(spec, ctx=None):
+    viol, opv = _check(spec, ctx)
+    if opv and spec.get("names"): opv = flag_names(spec, opv)
+    return viol + [(a, b) for _, a, b in opv]
+
+def _check(spec, ctx=None):
+    """-> (violations of moving_average [(sig, what)], violations of the operations on the Result [(index of the operation, sig, what)])"""
     viol = []
     def note(name, n=1):
         if ctx: ctx.count(name, n)
@@ -627,12 +633,12 @@ def check_case(spec, ctx=None, flag=True):
     # ---- the Result
     try: R = build(spec)
     except Exception as e:     # a Result that cannot be constructed is outside "for all Results"
-        note(f"skipped.build-raised:{type(e).__name__}"); return viol
+        note(f"skipped.build-raised:{type(e).__name__}"); return viol, []
     note("build." + spec["build"])
     state = extract(R)
     dangling, unref = integrity(state)
     if dangling:           # cannot happen for the generated inputs; such a Result is outside the property's domain
-        note("diag.input-dangling"); return viol
+        note("diag.input-dangling"); return viol, []
     consistent = not unref
     meta = dict(spec["meta"], names=spec.get("names") or {})
     n_e = len({ev[0] for ev in state.evals}); n_l = len({ev[1] for ev in state.evals})
@@ -681,9 +687,7 @@ def check_case(spec, ctx=None, flag=True):
         consistent = not unref2
         prefix.append(kind)
         n_e = len({ev[0] for ev in state.evals}); n_l = len({ev[1] for ev in state.evals})
-    if opv and flag and spec.get("names"): opv = flag_names(spec, opv)
-    viol.extend((a, b) for _, a, b in opv)
-    return viol
+    return viol, opv
 
 def flag_names(spec, opv):
     """a violation in a case with renamed columns: does it depend on the NAMES?  The case is run again with plain names; a signature
@@ -693,21 +697,21 @@ def flag_names(spec, opv):
     memo = {}
     def sigs(keep):           # signatures of the case in which only the columns `keep` still carry their special-looking names
         k = tuple(sorted(keep))
-        if k not in memo: memo[k] = {a for a, _ in check_case(neutral_spec(spec, set(spec["names"]) - set(keep)), None, False)}
+        if k not in memo: memo[k] = {(j, a) for j, a, _ in _check(neutral_spec(spec, set(spec["names"]) - set(keep)), None)[1]}
         return memo[k]
     out = []
     for i, sig, what in opv:
-        if sig in sigs(()): out.append((i, sig, what)); continue
+        if (i, sig) in sigs(()): out.append((i, sig, what)); continue
         used = [r for op in spec["ops"][:i + 1] for r in op_names(spec, op)]
         keep = sorted(spec["names"])
         for c in list(keep):
             rest = [k for k in keep if k != c]
-            if sig in sigs(rest): keep = rest
+            if (i, sig) in sigs(rest): keep = rest
         roles = [r for r in op_names(spec, spec["ops"][i]) if r[1] in keep] or [r for r in used if r[1] in keep]
         fl = set()
         for c in keep:
             rs = [r for r in roles if r[1] == c]
-            if rs: fl.add(min(rs, key=lambda r: ("x", "l", "p", "where").index(r[0])))
+            if rs: fl.add(min(rs, key=lambda r: (("l", "p", "x", "where") if sig.startswith("where_fin") else ("x", "l", "p", "where")).index(r[0])))
         fl = "".join(f"/{role}-name~{tok}" for role, tok in sorted({(role, tok) for role, _, tok in fl})) or "/column-names"
         head, sep, tail = sig.rpartition("/mode=")
         out.append((i, head.split("/")[0] + fl + sep + tail,
